@@ -287,6 +287,11 @@ pub struct World {
     /// (task waker id, child): when that task waker is cloned for the first time, the stored
     /// waker of the child is invoked - a wake landing while the collection registers its task waker
     pub tw_hook: Option<(usize, u32)>,
+    // zero-sized futures: identity is the slot (waker data pointer) they are polled in
+    pub z_unbound: std::collections::VecDeque<u32>,
+    pub z_bound: Vec<(usize, u32)>,
+    pub z_created: u32,
+    pub z_drops: u32,
     // slot occupancy (RawWaker data pointer -> child)
     pub occupant: Vec<(usize, u32)>,
     // flags
@@ -343,6 +348,10 @@ impl World {
             task_wakes_total: 0,
             env_wake_depth: 0,
             tw_hook: None,
+            z_unbound: std::collections::VecDeque::new(),
+            z_bound: Vec::new(),
+            z_created: 0,
+            z_drops: 0,
             occupant: Vec::new(),
             draining: false,
             dormant: false,
@@ -852,6 +861,7 @@ fn complete_child(w: &mut World, id: u32) {
     w.completed_in_call.push(id);
     w.clear_occupant(id);
     w.unlive(id);
+    w.z_bound.retain(|(_, c)| *c != id);
 }
 
 impl<O: Out> Future for ScriptFut<O> {
@@ -880,6 +890,57 @@ impl<O: Out> Future for NdFut<O> {
     fn poll(self: Pin<&mut Self>, cx: &mut Context<'_>) -> Poll<O> {
         let addr = &*self as *const Self as usize;
         script_poll::<O>(self.id, addr, cx)
+    }
+}
+
+/// A scripted future that is a zero-sized type *with* a destructor (a crate may special-case
+/// zero-sized types). It cannot carry an id: its identity is the slot it is polled in (the data
+/// pointer of the waker it is handed), bound at its first poll in push order; its drops can only be
+/// counted.
+pub struct ZFut {
+    _pin: PhantomPinned,
+}
+impl ZFut {
+    pub fn new(id: u32) -> Self {
+        w(|w| {
+            w.children[id as usize].no_drop_glue = true; // drops are counted, not attributed
+            w.z_unbound.push_back(id);
+            w.z_created += 1;
+        });
+        ZFut { _pin: PhantomPinned }
+    }
+    /// the harness gets one back (refused push): its drop is counted like any other, the id it was
+    /// created for is no longer waiting for a slot
+    pub fn unbind_latest() -> u32 {
+        w(|w| w.z_unbound.pop_back().unwrap_or(u32::MAX))
+    }
+}
+impl Future for ZFut {
+    type Output = Tok;
+    fn poll(self: Pin<&mut Self>, cx: &mut Context<'_>) -> Poll<Tok> {
+        let data = cx.waker().data() as usize;
+        let id = callback(|| {
+            w(|w| {
+                if let Some((_, c)) = w.z_bound.iter().find(|(p, _)| *p == data) {
+                    return Some(*c);
+                }
+                let c = w.z_unbound.pop_front()?;
+                w.z_bound.push((data, c));
+                Some(c)
+            })
+        });
+        match id {
+            Some(id) => script_poll::<Tok>(id, 1, cx),
+            None => {
+                callback(|| w(|w| w.violate("C05", "unknown-zero-sized-child-polled", "a zero-sized child was polled in a slot no pushed child can be in")));
+                Poll::Pending
+            }
+        }
+    }
+}
+impl Drop for ZFut {
+    fn drop(&mut self) {
+        callback(|| w(|w| w.z_drops += 1))
     }
 }
 
